@@ -107,6 +107,19 @@ def check_one(mtj, root_attach, order=None, rules=None):
         base.sid = mt.sid
         if rules:
             t = transform.mark_heads_by_rules(t, mark_heads_preset=rules['preset'])
+            if rules.get('choice') is None:
+                flags = {}
+                for x in all_nodes(t):
+                    if x.children:
+                        ks = sorted(x.children, key=lambda c: node_span(c)[0])
+                        hs = [i for i, c in enumerate(ks) if c.data.get('head') is True]
+                        if len(hs) != 1:
+                            bad('one-head', 'mark_heads_by_rules', 'children of %s carry head flags %r'
+                                % (x.data['label'], [c.data.get('head') for c in ks]),
+                                'not exactly one head child per constituent')
+                            return out, False
+                        flags[tuple(node_span(x))] = hs[0]
+                rules = dict(rules, flags=flags)
         else:
             t = transform.negra_mark_heads(t)
         t = transform.boyd_split(t)
@@ -171,7 +184,18 @@ def check_one(mtj, root_attach, order=None, rules=None):
         if sp != list(range(sp[0], sp[-1] + 1)):
             bad('still-discontinuous', 'raising', 'node %s covers %r' % (x.data['label'], sp),
                 'a node is still discontinuous after raising')
-    if rules:
+    if rules and rules.get('choice') is None:
+        # categories whose head rule lists nothing: the marking is taken as given, but it must mark exactly
+        # one child per constituent, and split-and-raise must follow it
+        exp_root = None
+        flags = rules['flags']
+        try:
+            exp_root = refs.split_raise(base, head_index=lambda nd: flags[tuple(model.leaves(nd))])
+        except KeyError:
+            pass
+        if exp_root is None:
+            return out, disc
+    elif rules:
         heads = {tuple(p): h for p, h in rules['choice']}
         by_label = {}
 
@@ -300,6 +324,16 @@ def run_chunk(chunk):
                     res.outcome((model.shape_str(sh), tuple(sorted(choice.items())), 'ptb', len(vs)))
                     for v in vs:
                         res.violation(v['kind'], v['where'], v['case'], v['detail'], v['what'])
+            if chunk['n'] <= (4 if chunk.get('tier') != 'thorough' else 5) and not k:
+                cats = ['PRN', 'INTJ', 'XYZ', 'FRAG', 'S']
+                root = model.decorate(sh, lambda p, s: cats[(sum(p) + len(p)) % len(cats)] + '-9' + ''.join(map(str, p)),
+                                      root_label='PRN=9')
+                emt = model.MT(1, model.mk_tokens(len(model.leaves(sh)), pos=['zzz'] * len(model.leaves(sh))), root)
+                vs, disc = check_one(emt.to_json(), False, None, {'preset': 'ptb', 'choice': None})
+                res.evals += 1
+                res.nontrivial += 1 if disc else 0
+                for v in vs:
+                    res.violation(v['kind'], v['where'], v['case'], v['detail'], v['what'])
             if model.mt_tree_gap_degree(mt.root) > 0:
                 res.sample({'tree': model.mt_str(mt.root, mt.toks),
                             'expected_after_raising': model.mt_str(refs.split_raise(mt))})
